@@ -35,10 +35,11 @@ TEXT = {
 }
 
 NA_FIXED = {
-    "C17": "pure function of its input (apply_bounds: no state, schedule, clock, I/O or interaction); the deciding inputs "
-           "(exactly on a face, one ulp outside, exact multiples of an inexact range) have measure zero under any seeded "
-           "trajectory and can only be forced by overwriting RNG draws, which no real seed reproduces - deterministic "
-           "simulation has nothing to act on (DESIGN.md section 5)",
+    "C17": "pure function of its input (apply_bounds: no state, schedule, clock, I/O or interaction), quantified over all "
+           "vectors and boxes; the deciding inputs (exactly on a face, one ulp outside, exact multiples of an inexact "
+           "range) are all but unreachable by seeded trajectories (one was reached in 150 000 thorough C01 runs and "
+           "repaired as a C01 finding) and could otherwise only be forced by overwriting RNG draws, which no real seed "
+           "reproduces - deterministic simulation decides a sliver of the statement at best (DESIGN.md section 5)",
 }
 
 
